@@ -96,7 +96,9 @@ RunAway(t) ==
 Milestone(t) ==
   /\ pc = "run" /\ cur = 0 /\ Pending = {} /\ FirstReady(t) /\ T(t).effort = 0
   /\ LET b == IF Fwd(t) THEN BoundF(t) ELSE Deadline(t)
-     IN ts' = [ts EXCEPT ![t].st = "done", ![t].sched = TRUE, ![t].start = b, ![t].end = b]
+     IN IF 0 <= b /\ b <= P.N * G
+        THEN ts' = [ts EXCEPT ![t].st = "done", ![t].sched = TRUE, ![t].start = b, ![t].end = b]
+        ELSE ts' = [ts EXCEPT ![t].st = "failed"]          \* dependency bound beyond the horizon
   /\ ld' = 0 /\ UNCHANGED <<proj, used, usage, lim, lsec, cur, pc>>
 
 \* an effort task without resources can never be placed
@@ -138,7 +140,8 @@ Inv10b == \A k \in DOMAIN usage : R(k[1]).leaf /\ \A i \in 1..Len(usage[k]) : T(
 Inv08 == (ld # 0 /\ Len(Members(ld)) = 1) =>
             IF Fwd(ld) THEN P08F(ld, Members(ld)[1], ts[ld].hi) ELSE P08B(ld, Members(ld)[1], ts[ld].lo)
 \* C11: totality -- in the terminal state every leaf is scheduled inside the horizon or failed / never ready
-Inv11 == pc = "end" => \A t \in Leafs : IF ts[t].sched THEN 0 <= ts[t].start /\ ts[t].start <= ts[t].end /\ ts[t].end <= P.N * G
+\* (a milestone the user pinned outside the project window is reported where the user put it)
+Inv11 == pc = "end" => \A t \in Leafs : IF ts[t].sched THEN ts[t].start <= ts[t].end /\ (PinnedMs(t) \/ (0 <= ts[t].start /\ ts[t].end <= P.N * G))
                                                          ELSE ts[t].st \in {"failed", "todo"}
 Terminated == pc = "end"
 Live11 == <>Terminated
